@@ -31,9 +31,11 @@ pub fn repl() -> Filter<RunPtr<DataKind>> {
 }
 
 fn eval(runner: &Runner, code: String, input: Val) -> Result<(), Error> {
-    let (ctx, filter) =
-        filter::parse_compile(&"<repl>".into(), &code, &[], &[]).map_err(Error::Report)?;
-    let ctx = Vars::new(ctx);
+    // the prelude (`input_filename`) refers to this variable; the REPL has no input file
+    let vars = ["!input_filename".to_string()];
+    let (vals, filter) =
+        filter::parse_compile(&"<repl>".into(), &code, &vars, &[]).map_err(Error::Report)?;
+    let ctx = Vars::new(core::iter::once(Val::Null).chain(vals).collect::<Vec<_>>());
     let inputs = core::iter::once(Ok(input));
     let writer = &runner.writer;
     with_stdout(|out| run(runner, &filter, ctx, inputs, |v| write(out, writer, &v)))?;
